@@ -330,7 +330,9 @@ def named(R, b, v, bs, sk, nf, sp, fields, container, variant_ident):
             s = fb_sites[0]
             fld = dict(zip(s.payload[5], s.payload[2]))
             acc = const_str_array(v, canon(v, fld.get("accepted")))
-            if acc != keys:
+            if acc is None:
+                R.bad("C09.ACCEPTED", body, "the accepted list of the unknown-key report could not be read as a literal array of names: not recognised (undecided)%s" % where, b.span)
+            elif acc != keys:
                 R.bad("C09.ACCEPTED", body, "unknown keys are reported with accepted = %s, the effective keys of the non-skipped fields are %s%s" % (acc, keys, where), b.span)
             else:
                 R.sample("C09", {"type": sp["name"] + where, "accepted": acc})
@@ -587,7 +589,9 @@ def unit(R, b, v, bs, sk, sp):
     else:
         fld = dict(zip(s.payload[5], s.payload[2]))
         acc = const_str_array(v, canon(v, fld.get("accepted")))
-        if acc != want:
+        if acc is None:
+            R.bad("C10.UNKNOWN", body, "the accepted list of the unknown-value report could not be read as a literal array of names: not recognised (undecided)", b.span)
+        elif acc != want:
             R.bad("C10.UNKNOWN", body, "unknown values are reported with accepted = %s, the effective variant names are %s" % (acc, want), b.span)
         else:
             R.sample("C10", {"type": sp["name"], "accepted": acc})
@@ -680,7 +684,10 @@ def validate(R, b, v, bs, sk, sp, cl):
         c = v.callee(a0[1])
         ok = c is not None and c.fn is not None and c.path.split("::")[-1] == conv["fn"]  # container `from`: the converted value
     if not ok:
-        R.bad("C11.VALIDATE", body, "validate does not receive the finished value (it can run although deserialisation failed)", b.span, fmt(a0))
+        if a0[0] == "multi" or (a0[0] == "field" and strip_refs(a0[1])[0] == "multi"):
+            R.bad("C11.VALIDATE", body, "where validate's argument comes from was not resolved (a local with several definitions): not recognised (undecided)", b.span, fmt(a0))
+        else:
+            R.bad("C11.VALIDATE", body, "validate does not receive the finished value (it can run although deserialisation failed)", b.span, fmt(a0))
     # its result: map_err(closure merging at P) returned
     okm = False
     from loc import is_own_location
